@@ -69,7 +69,7 @@ def mon_c08(run, world):
         if sc and sc[6][3] is not None and int(r[7]) != sc[6][3]:
             bad.append("TASK_PLACEMENT row of %s reports runtime %s, the chosen strategy has %s" % (name, r[7], sc[6][3]))
         place = [e for e in log if e[0] == "worker" and e[1] == "place" and e[3] == name and e[5] == "ok"]
-        if place:
+        if place and place[-1][4][2] == 1:       # (members of a batch share the batch's allocation)
             want = {}
             for (n, _i, q) in place[-1][4][1]:
                 want[n] = want.get(n, 0) + q
